@@ -12,6 +12,8 @@ package mcsys
 
 import (
 	"fmt"
+	"runtime"
+	"strings"
 
 	real "golang.org/x/sys/unix"
 
@@ -140,9 +142,9 @@ func (l *Ledger) use(op string, fd int) {
 	case st == nil:
 		// never seen: e.g. stdin/out or an fd created outside the shim; ignore
 	case st.owner == "":
-		l.violate("fd:useafterclose:"+op, "%s(%d) by the framework after it had closed descriptor %d (%s)", op, fd, fd, st.kind)
+		l.violate("fd:useafterclose:"+op+"@"+callSite(), "%s(%d) by the framework after it had closed descriptor %d (%s); call site %s", op, fd, fd, st.kind, callSite())
 	case st.owner == "user":
-		l.violate("fd:foreign:"+op, "%s(%d) by the framework on descriptor %d which belongs to the application (%s)", op, fd, fd, st.kind)
+		l.violate("fd:foreign:"+op+"@"+callSite(), "%s(%d) by the framework on descriptor %d which belongs to the application (%s); call site %s", op, fd, fd, st.kind, callSite())
 	}
 }
 
@@ -778,4 +780,23 @@ func KindOf(fd int) string {
 		return st.kind
 	}
 	return ""
+}
+
+// callSite names the innermost function of package gnet (not a shim, not a harness) on the stack.
+//
+//go:norace
+func callSite() string {
+	pcs := make([]uintptr, 32)
+	n := runtime.Callers(3, pcs)
+	frames := runtime.CallersFrames(pcs[:n])
+	for {
+		f, more := frames.Next()
+		fn := f.Function
+		if strings.HasPrefix(fn, "github.com/panjf2000/gnet/v2.") && !strings.Contains(f.File, "zz_") {
+			return strings.TrimPrefix(fn, "github.com/panjf2000/gnet/v2.")
+		}
+		if !more {
+			return "?"
+		}
+	}
 }
